@@ -475,6 +475,50 @@ def make_cases(ctx):
                 body.append({'cls': cls_, 'meth': 'ar', 'args': args})
         add('multictl', {'name': ascii_name(rng, 6), 'params': params, 'variants': None, 'body': body, 'base': False}, expect='ok')
 
+    # several GROUPS of controls in one definition: the function's own parameters (lagged or not, arrays of
+    # more than 16 lagged slots), then SynthDef.wrap(inner function with parameters) and controls registered
+    # by hand (<Class>.add_name + constructor), in any order; every default value is distinct, so a name
+    # pointing at the wrong slot shows
+    for _ in range(ctx.n(10, 60)):
+        cnt = [0]
+
+        def val():
+            cnt[0] += 1
+            return float(cnt[0])
+
+        def plist(prefix, n, lagp):
+            ps = []
+            for j in range(n):
+                d = val() if rng.random() < 0.7 else [val() for _ in range(rng.choice([2, 3, 17, 18]))]
+                q = {'name': '%s%d' % (prefix, j), 'default': d, 'annot': rng.choice([None, None, None, 'kr', 'ir', 'tr', 'ar'])}
+                if q['annot'] in (None, 'kr') and rng.random() < lagp:
+                    q['lag'] = rng.choice([0.1, 0.2, 0.5])
+                ps.append(q)
+            return ps
+        params = plist('a', rng.randint(0, 3), rng.choice([0.0, 0.9, 0.9]))
+        body = [{'cls': 'SinOsc', 'meth': 'ar', 'args': [{'k': 440}, {'k': 0}]}]
+        names_used = set(p_['name'] for p_ in params)
+        for gi in range(rng.randint(1, 4)):
+            if rng.random() < 0.5:
+                inner = plist('w%d_' % gi, rng.randint(1, 3), rng.choice([0.0, 0.8]))
+                ibody = [{'cls': 'SinOsc', 'meth': 'ar', 'args': [{'p': 0, 'pick': 0, 'need': 'notaudio'}, {'k': 0}]}]
+                for j in range(len(inner)):
+                    ibody.append({'op': 'bin', 'sel': '*', 'a': {'v': len(ibody) - 1, 'single': 1}, 'b': {'p': j, 'pick': rng.randrange(3)}})
+                body.append({'wrap': {'params': inner, 'body': ibody}})
+            else:
+                cls_ = rng.choice(['Control', 'Control', 'TrigControl', 'AudioControl', 'LagControl'])
+                n = rng.choice([1, 1, 2, 3, 17])
+                k_ = {'cls': cls_, 'name': 'm%d' % gi, 'values': [val() for _ in range(n)],
+                      'meth': {'Control': rng.choice(['kr', 'ir']), 'TrigControl': 'kr', 'AudioControl': 'ar', 'LagControl': 'kr'}[cls_]}
+                if cls_ == 'LagControl':
+                    k_['lags'] = [rng.choice([0.1, 0.3]) for _ in range(n)]
+                body.append({'ctl': k_})
+            body.append({'op': 'bin', 'sel': '*', 'a': {'v': 0, 'single': 1}, 'b': {'v': len(body) - 1, 'pick': rng.randrange(4), 'need': 'nodemand'}})
+            body.append({'cls': 'Out', 'meth': 'ar', 'args': [{'k': gi}, {'v': len(body) - 1, 'need': 'audio'}]})
+        for j in range(len(params)):
+            body.append({'cls': 'Out', 'meth': 'kr', 'args': [{'k': 10 + j}, {'p': j, 'need': 'notaudio'}]})
+        add('groups', {'name': ascii_name(rng, 5), 'params': params, 'variants': None, 'body': body, 'base': False}, expect='ok')
+
     # (c) variants: valid boundary (full name exactly 32) and invalid ones (F19): the valid prefix is written,
     # the count must be the number of variants that follow
     def vprog():
@@ -751,6 +795,8 @@ def correspond(ctx):
                     opseen.add((t_[0], t_[4]))
             if o['desc'] and o['desc']['gate']:
                 c.count('has-gate')
+            if kind == 'groups':
+                c.count('groups:controls-checked-against-received-slots', o.get('decl_from_graph', 0))
             if o['desc'] and (o['desc']['ins'] or o['desc']['outs']):
                 c.count('has-io-desc')
             if o['desc_exc']:
